@@ -477,14 +477,20 @@ def forbidden_categories(case: dict, obs: dict, snap: dict[str, str], roots: lis
             ex.add(p)
     cats["exclude-match"] = ex
     cats["outside-paths"] = {p for p in snap if not any(under(p, r) for r in roots)}
+    cats["directory-node-match"] = directory_node_matches(case, snap)
+    return cats
+
+
+def directory_node_matches(case: dict, snap: dict[str, str]) -> set[str]:
+    """Files a declared DirectoryNode(root_dir, pattern) resolves to (patterns generated here have one component)."""
+    root = case["root"]
     dn = set()
     for d in case.get("dirnodes", []):
         for p in snap:
             par = f"{root}/{d['dir']}"
             if p.startswith(par + "/") and "/" not in p[len(par) + 1:] and snap[p] != "d" and PurePosixPath(p).match(d["pattern"]):
                 dn.add(p)
-    cats["directory-node-match"] = dn
-    return cats
+    return dn
 
 
 def classify(case: dict, hit_cats: set[str], path: str) -> str | None:
@@ -509,6 +515,7 @@ def model_line(case: dict, obs: dict, snap: dict[str, str], roots: list[str], mo
         "config=" + (enc_path(f"{V}/{root}/pyproject.toml") if case["has_cfg"] else "-"),
         "mods=" + ",".join(enc_path(f"{V}/{m}") for m in collected_modules(case, roots)),
         "nodes=" + ",".join(enc_path(f"{V}/{n}") for n in declared_nodes(case, roots)),
+        "dnodes=" + ",".join(enc_path(f"{V}/{n}") for n in sorted(directory_node_matches(case, snap))),
         "excl=" + ",".join(enc(p.replace("{W}", V)) for p in effective_patterns(case)),
         "dirs=" + ("1" if any(a in ("-d", "--directories") for a in case["args"]) else "0"),
         "mode=" + mode,
